@@ -181,6 +181,49 @@ theorem c13_buffered_order (bufferSize : Nat) (ops : List COp) :
   have := run_inv (BConn.mk bufferSize [] []) ops
   simpa using this
 
+/-- The METHOD SET of buffered.Conn, regenerated from /repo on every run: the struct embeds nothing
+    (no promoted methods), the only methods that touch the write queue, the socket's `Write` or the rate
+    limiter are `Write`, `Flush` and their helper `writeFull` — the ones the model describes — and the
+    type has none of the methods an `io.Writer`-probing caller looks for (`WriteString`: `io.WriteString`
+    and the `writeStringer` probe of av/format/rtsp `Response.Write` / `Header.Write` / `Request.Write`;
+    `ReadFrom`: `io.Copy`; `WriteByte`, `WriteRune`, `WriteTo`).  A new write method breaks this
+    obligation: it is a write path `c13_buffered_order_all_paths` does not cover. -/
+theorem c13_source_conn_methods :
+    IpcHub.Gen.bconnEmbedded = [] ∧
+    IpcHub.Gen.bconnWritePaths = ["Flush", "Write", "writeFull"] ∧
+    (probedMethods.all fun m => !IpcHub.Gen.bconnMethods.contains m) = true ∧
+    (∀ v : Via, v = .write ∨ IpcHub.Gen.bconnMethods.contains v.method = false) := by
+  refine ⟨by decide, by decide, by decide, ?_⟩
+  intro v
+  cases v
+  · exact Or.inl rfl
+  all_goals exact Or.inr (by decide)
+
+/-- EVERY write path of buffered.Conn keeps the order: whatever method a caller picks for each
+    hand-over — `Write` itself or, through an io.Writer probe, `WriteString`, `ReadFrom`, `WriteByte` —
+    with the method set of the CURRENT source every sequence of hand-overs and flushes, under every
+    answer of the rate limiter, is described by the model (the probe finds nothing and the bytes go
+    through `Write`), and the bytes on the socket followed by the bytes still queued are exactly the
+    concatenation of what was handed over, in order. -/
+theorem c13_buffered_order_all_paths (bufferSize : Nat) (ops : List VOp) :
+    ∃ c, (BConn.mk bufferSize [] []).runVia IpcHub.Gen.bconnMethods ops = some c ∧
+      c.sock ++ c.buf = (vpayloads ops).flatten ∧ (c.flush).buf = [] := by
+  refine ⟨(BConn.mk bufferSize [] []).run (vplain ops), runVia_plain _ c13_source_conn_methods.2.2.2 _ ops, ?_⟩
+  have := c13_buffered_order bufferSize (vplain ops)
+  simpa [vpayloads_vplain] using this
+
+/-- What the obligation is for: a type that HAS the probed method is outside the model (the run is not
+    described), and a `WriteString` that writes straight to the socket whenever the limiter has a token —
+    without looking at the queue, unlike `Write` — lets the new bytes overtake the queued ones: with
+    `[1]` queued, handing over `[2]` puts `[2]` on the socket in front of it. -/
+theorem c13_unmodelled_write_path_witness :
+    (BConn.mk 8 [] []).runVia ["Flush", "Write", "WriteString"] [.write .writeString [2] false] = none ∧
+    (let queued : BConn := (BConn.mk 8 [] []).write [1] true                    -- limited: queued
+     let direct : BConn := { queued with sock := queued.sock ++ [2] }           -- token: straight to the socket
+     queued.buf = [1] ∧ direct.sock ++ direct.buf = [2, 1] ∧
+     (queued.write [2] false).sock ++ (queued.write [2] false).buf = [1, 2]) := by
+  decide
+
 /-- `Packet.Write` puts on its writer nothing at all (channel not subscribed) or exactly the
     RFC 2326 §10.12 frame `$`, channel, 16-bit length, payload — for every channel value and every
     payload shorter than 2^16 bytes (the length field of the frame). -/
